@@ -112,6 +112,30 @@ Fixpoint numbers_safe (j : json) : bool :=
   | _ => true
   end.
 
+(* ---------- plain values: what the round trip leaves alone ---------- *)
+Fixpoint nodup_keys (seen : list bytes) (m : list (bytes * json)) : bool :=
+  match m with
+  | [] => true
+  | (k, _) :: m' => negb (mem_bytes k seen) && nodup_keys (k :: seen) m'
+  end.
+
+(* values the specification can speak about without saying how a parser treats them: unique
+   keys, valid UTF-8, integers that every implementation reads alike *)
+Fixpoint plain_value (j : json) : bool :=
+  match j with
+  | JNum raw => num_safe raw
+  | JStr s => bytes_eqb (utf8_sanitize s) s
+  | JArr l => forallb plain_value l
+  | JObj m =>
+      nodup_keys [] m &&
+      (fix go (m : list (bytes * json)) : bool :=
+         match m with
+         | [] => true
+         | (k, v) :: m' => bytes_eqb (utf8_sanitize k) k && plain_value v && go m'
+         end) m
+  | _ => true
+  end.
+
 (* ---------- the struct of kept fields ---------- *)
 Inductive fkind := FRaw | FStr | FMap | FUnknown.
 Record field := mkField { fname : bytes; fomit : bool; fkind_of : fkind }.
